@@ -69,11 +69,16 @@ class LotkaVolterraOscillating:
         ).sum()
 
     def log_prob(self, value):
-        unnormalized_log_prob = self._gaussian.log_prob(value) + self._uniform.log_prob(
-            value
+        # The box only restricts the support (0 inside, -inf outside); its own
+        # density must not enter, the Gaussian mass on the box is in _log_normalizer.
+        uniform_log_prob = self._uniform.log_prob(value)
+        support = torch.where(
+            torch.isinf(uniform_log_prob),
+            uniform_log_prob,
+            torch.zeros_like(uniform_log_prob),
         )
 
-        return self._log_normalizer + unnormalized_log_prob
+        return self._log_normalizer + self._gaussian.log_prob(value) + support
 
     def sample(self, sample_shape=torch.Size()):
         num_remaining_samples = sample_shape[0]
